@@ -15,6 +15,7 @@ import (
 	"strconv"
 	"strings"
 	"testing"
+	"time"
 
 	"pgregory.net/rapid"
 	"verif/internal/cli"
@@ -46,6 +47,8 @@ type snap struct {
 	// TarSeen: an output was a tar archive; its member names and contents are compared, not
 	// the header time stamps (an archive records when it was made, like a file system does)
 	TarSeen bool
+	// Compressed: an output file is a .gz, .xz or tar file (formats that can carry a time stamp)
+	Compressed bool
 }
 
 var execSeq int
@@ -70,12 +73,22 @@ func execute(caseDir, stdin string, args []string) snap {
 		if strings.HasSuffix(rel, ".tar") || strings.HasSuffix(rel, ".tar.gz") {
 			if txt, ok := tarMembers(b, strings.HasSuffix(rel, ".gz")); ok {
 				s.TarSeen = true
+				s.Compressed = true
 				s.Files[rel] = txt
+				if strings.HasSuffix(rel, ".gz") {
+					// the gzip layer around the archive has a header of its own
+					s.Files[rel+" [gzip header]"] = gzipHeader(b)
+				}
 				return nil
 			}
 		}
 		s.Files[rel] = string(b)
+		if strings.HasSuffix(rel, ".xz") {
+			s.Compressed = true
+		}
 		if strings.HasSuffix(rel, ".gz") {
+			s.Compressed = true
+			s.Files[rel+" [gzip header]"] = gzipHeader(b)
 			// the compressed bytes are compared, and so is what they decompress to (with the
 			// harness's own reader): the second comparison names the differing line
 			if txt, ok := gunzip(b); ok {
@@ -87,6 +100,20 @@ func execute(caseDir, stdin string, args []string) snap {
 		return nil
 	})
 	return s
+}
+
+// gzipHeader: the header fields of a gzip stream read with compress/gzip: they must be the same on
+// every execution (the unchanged tree writes no name, no comment and a zero modification time)
+func gzipHeader(b []byte) string {
+	g, err := gzip.NewReader(bytes.NewReader(b))
+	if err != nil {
+		return "(not a gzip stream: " + err.Error() + ")"
+	}
+	mt := int64(0)
+	if !g.ModTime.IsZero() {
+		mt = g.ModTime.Unix()
+	}
+	return fmt.Sprintf("name=%q comment=%q modtime=%d os=%d extra=%q", g.Name, g.Comment, mt, g.OS, g.Extra)
 }
 
 func gunzip(b []byte) (string, bool) {
@@ -161,7 +188,14 @@ func diffSnap(a, b snap) string {
 	for n := range names {
 		list = append(list, n)
 	}
-	sort.Strings(list)
+	// derived entries ("… [gzip header]", "… [decompressed]") first: they give the readable message
+	sort.Slice(list, func(i, j int) bool {
+		di, dj := strings.HasSuffix(list[i], "]"), strings.HasSuffix(list[j], "]")
+		if di != dj {
+			return di
+		}
+		return list[i] < list[j]
+	})
 	for _, n := range list {
 		ca, oka := a.Files[n]
 		cb, okb := b.Files[n]
@@ -475,8 +509,11 @@ type tmpl struct {
 	// Threads: the command hands --threads to a worker pool
 	Threads bool
 	// Map: its output is assembled from a Go map (order must be imposed by the code)
-	Map  bool
-	Args func(x *ctx) []string
+	Map bool
+	// Compressed: the template writes a .gz, .xz or tar output (at least for some knob values): in
+	// TestEveryTemplate its executions are separated by more than a second (see sweepCase.Gap)
+	Compressed bool
+	Args       func(x *ctx) []string
 }
 
 var ntModels = []string{"jc", "k2p", "pdist", "rawdist", "f81", "tn93", "f84"}
@@ -494,7 +531,13 @@ var templates = []tmpl{
 	{Name: "reformat fasta -p", In: "any", Args: func(x *ctx) []string {
 		return cat("reformat", "fasta", "-p", "-i", x.file("in.phy", phylip(x.c.Rows)), x.opt(0, "--auto-detect"))
 	}},
-	{Name: "reformat nexus gz", In: "any", Args: func(x *ctx) []string { return cat("reformat", "nexus", "-i", x.in, "-o", "out.nx.gz") }},
+	{Name: "reformat nexus gz", In: "any", Compressed: true, Args: func(x *ctx) []string { return cat("reformat", "nexus", "-i", x.in, "-o", "out.nx.gz") }},
+	{Name: "reformat phylip xz", Class: "reformat phylip", In: "any", Compressed: true, Args: func(x *ctx) []string {
+		return cat("reformat", "phylip", "-i", x.in, "-o", x.pick(0, "out.phy.xz", "out.phy.gz"))
+	}},
+	{Name: "clean sites gz", Class: "clean sites", In: "any", Compressed: true, Args: func(x *ctx) []string {
+		return cat("clean", "sites", "-i", x.in, "-c", "0.5", "-o", x.pick(0, "clean.fa.gz", "clean.fa.xz"), "--positions", "pos.txt.gz")
+	}},
 	// ---- cleaning
 	{Name: "clean sites", In: "any", Map: true, Args: func(x *ctx) []string {
 		return cat("clean", "sites", "-i", x.in, "-c", frac(x.k(0, 6)), "--char", x.pick(1, "GAP", "MAJ", "N", "A", "X"),
@@ -656,6 +699,9 @@ var templates = []tmpl{
 	{Name: "divide", In: "any", Args: func(x *ctx) []string {
 		return cat("divide", "-p", "-i", x.file("multi.phy", phylip(x.c.Rows)+phylip(x.c.Rows)), "-o", "div", x.opt(0, "-f"), x.opt(1, "--nb-sequences", 1+x.k(2, 3)))
 	}},
+	{Name: "divide compress", Class: "divide", In: "any", Compressed: true, Args: func(x *ctx) []string {
+		return cat("divide", "-p", "-i", x.file("multi.phy", phylip(x.c.Rows)+phylip(x.c.Rows)), "-o", "div", "--compress", x.opt(0, "-f"))
+	}},
 	{Name: "transpose", In: "any", Args: func(x *ctx) []string { return cat("transpose", "-i", x.in) }},
 	// ---- names and order
 	{Name: "rename", In: "any", Map: true, Args: func(x *ctx) []string {
@@ -758,16 +804,16 @@ var templates = []tmpl{
 	{Name: "build seqboot", In: "any", Random: true, Threads: true, Args: func(x *ctx) []string {
 		return cat("build", "seqboot", "-i", x.in, "-n", seqbootN(x), "-o", x.pick(4, "boot", "rep_", "b.x"), x.opt(1, "-S"), x.opt(2, "-f", "0.6"))
 	}},
-	{Name: "build seqboot gz", Class: "build seqboot", In: "any", Random: true, Threads: true, Args: func(x *ctx) []string {
+	{Name: "build seqboot gz", Class: "build seqboot", In: "any", Random: true, Threads: true, Compressed: true, Args: func(x *ctx) []string {
 		return cat("build", "seqboot", "-i", x.in, "-n", seqbootN(x), "-o", x.pick(4, "boot", "rep_", "b.x"), "--gz", x.opt(1, "-S"), x.opt(2, "-f", "0.6"))
 	}},
-	{Name: "build seqboot tar", Class: "build seqboot", In: "any", Random: true, Threads: true, Args: func(x *ctx) []string {
+	{Name: "build seqboot tar", Class: "build seqboot", In: "any", Random: true, Threads: true, Compressed: true, Args: func(x *ctx) []string {
 		return cat("build", "seqboot", "-i", x.in, "-n", seqbootN(x), "-o", x.pick(4, "boot", "rep_", "b.x"), "--tar", x.opt(1, "-S"), x.opt(2, "-f", "0.6"))
 	}},
-	{Name: "build seqboot tar gz", Class: "build seqboot", In: "any", Random: true, Threads: true, Args: func(x *ctx) []string {
+	{Name: "build seqboot tar gz", Class: "build seqboot", In: "any", Random: true, Threads: true, Compressed: true, Args: func(x *ctx) []string {
 		return cat("build", "seqboot", "-i", x.in, "-n", seqbootN(x), "-o", x.pick(4, "boot", "rep_", "b.x"), "--tar", "--gz", x.opt(1, "-S"), x.opt(2, "-f", "0.6"))
 	}},
-	{Name: "build seqboot partition", Class: "build seqboot", In: "any", Random: true, Threads: true, Args: func(x *ctx) []string {
+	{Name: "build seqboot partition", Class: "build seqboot", In: "any", Random: true, Threads: true, Compressed: true, Args: func(x *ctx) []string {
 		h := x.l() / 2
 		part := fmt.Sprintf("M1,p1=1-%d\nM2,p2=%d-%d\n", h, h+1, x.l())
 		return cat("build", "seqboot", "-i", x.in, "-n", seqbootN(x), "-o", "boot", "--partition", x.file("parts.txt", part), "--out-partition", "parts_out.txt", x.pick(3, "", "--gz", "--tar", "--tar --gz"))
@@ -815,6 +861,10 @@ type sweepCase struct {
 	// Threads: the first value is executed Repeat times, every other value once
 	Threads []int `json:"threads"`
 	Repeat  int   `json:"repeat"`
+	// Gap: when the first execution wrote a compressed file (.gz, .xz, tar), wait 1.1 s before the
+	// second one, so that the two executions do not fall in the same second of the clock (the
+	// resolution of the time stamps those formats can carry)
+	Gap bool `json:"gap,omitempty"`
 }
 
 func genInput(t *rapid.T, kind string) (string, []gen.Row) {
@@ -897,6 +947,7 @@ func genSweepFor(t *rapid.T, tp *tmpl) sweepCase {
 	c.Seeded = tp.Random || rapid.Bool().Draw(t, "seeded")
 	c.Threads = genThreads(t)
 	c.Repeat = 3
+	c.Gap = tp.Compressed && rapid.IntRange(0, 9).Draw(t, "gap") == 0
 	return c
 }
 
@@ -933,6 +984,7 @@ func checkSweep(c sweepCase) (o pbt.Outcome, err error) {
 		s snap
 	}
 	var runs []run
+	waited := false
 	for i, th := range c.Threads {
 		rep := 1
 		if i == 0 {
@@ -947,6 +999,10 @@ func checkSweep(c sweepCase) (o pbt.Outcome, err error) {
 				return o, nil
 			}
 			runs = append(runs, run{th, s})
+			if c.Gap && len(runs) == 1 && s.Compressed {
+				time.Sleep(1100 * time.Millisecond)
+				waited = true
+			}
 		}
 	}
 	cmdline := "goalign " + strings.Join(clean, " ")
@@ -983,7 +1039,9 @@ func checkSweep(c sweepCase) (o pbt.Outcome, err error) {
 		}
 		o.Class("exit!=0")
 	}
-	if len(ref.s.Files) > 0 {
+	if waited {
+		o.Class("compressed output, executions 1.1 s apart")
+	} else if len(ref.s.Files) > 0 {
 		o.Class("output files")
 	}
 	return o, nil
@@ -1035,6 +1093,9 @@ func TestEveryTemplate(t *testing.T) {
 								c.Knobs[k] += v
 							}
 						}
+						// compressed outputs: the first two executions more than a second apart; once
+						// per template, for every case of a template whose output mode is a knob
+						c.Gap = tp.Compressed && (v == 0 || strings.HasSuffix(tp.Name, "partition") || v == 1 && (strings.HasSuffix(tp.Name, "xz") || strings.HasSuffix(tp.Name, "sites gz")))
 						if tp.Random {
 							// the randomised templates go through the special seeds in turn
 							c.Seed = seedSpecials[(seed+nrandom)%len(seedSpecials)]
